@@ -1,10 +1,12 @@
 import Driver.Proto
 import Driver.C16
 import Driver.C16Mon
+import Driver.C18
 
 def suites : List (String × Driver.Suite) :=
   Driver.C16.suites ++
-  Driver.C16Mon.suites
+  Driver.C16Mon.suites ++
+  Driver.C18.suites
 
 def main (args : List String) : IO UInt32 := do
   match args with
